@@ -69,6 +69,7 @@ type Check struct {
 	Overrides   []Override `json:"overrides"`
 	NoInit      []string   `json:"no_init"`
 	Summarize   []string   `json:"summarize"`
+	AlsoPrefixes []string  `json:"also_harness_prefixes"` // harness functions of another property's harness file that this check also runs
 	FuncStubs   map[string]string `json:"func_stubs"`
 	Assumptions []string   `json:"assumptions"`
 	Stubs       []string   `json:"stubs"`
@@ -256,9 +257,14 @@ func load(c *Check, ov map[string]string) (*loaded, error) {
 		}
 		var names []string
 		for name, m := range sp.Members {
-			if f, ok := m.(*ssa.Function); ok && strings.HasPrefix(name, prefix) {
-				names = append(names, name)
-				_ = f
+			if _, ok := m.(*ssa.Function); ok {
+				hit := strings.HasPrefix(name, prefix)
+				for _, ap := range c.AlsoPrefixes {
+					hit = hit || strings.HasPrefix(name, ap)
+				}
+				if hit {
+					names = append(names, name)
+				}
 			}
 		}
 		sort.Strings(names)
